@@ -461,3 +461,171 @@ Proof.
       pose proof (complete_cb_chin i r s0) as K; pose proof (complete_cb_obs i r s0) as Ko; rewrite H in K, Ko end.
     cbn in K, Ko. split; auto. apply is_ret_quiet; auto.
 Qed.
+
+Lemma stop_locked_view_all c s s' os : stop_locked c s = (s', os) ->
+  (forall p, tq p (tasks s) (tasks s')) /\ rd s' = rd s /\ chin_params (ch_in s') = chin_params (ch_in s) /\
+  ((s' = s /\ os = []) \/ (os = [OClose] /\ inq s' = stop_queue (inq s))).
+Proof.
+  intros H. split; [intros p; apply (stop_locked_view p _ _ _ _ H)|]. apply (stop_locked_view [] _ _ _ _ H).
+Qed.
+
+(** ** one critical section: handler entries and returns against the tasks in their handlers, and against the
+    handler entries the state can still produce *)
+Definition gate_shape (l : label) (os : list obs) : Prop :=
+  match l with LGate p _ => exists c, os = [OGate p c] | _ => gates os = [] end.
+Definition not_gate (l : label) : Prop := match l with LGate _ _ => False | _ => True end.
+
+Definition acct (s : state) (l : label) (os : list obs) (s1 : state) : Prop :=
+  gate_shape l os /\
+  forall p, cs p os + crun p (tasks s) = cg p os + crun p (tasks s1) /\
+            cs p os + budget p s1 <= budget p s + count_bytes p (label_params l).
+
+Lemma acct_quiet s l os s1 : not_gate l -> Forall quiet_obs os ->
+  (forall p, crun p (tasks s1) = crun p (tasks s) /\ budget p s1 <= budget p s + count_bytes p (label_params l)) ->
+  acct s l os s1.
+Proof.
+  intros Ng Q H. split.
+  - destruct l; cbn in Ng; try tauto; apply quiet_gates; auto.
+  - intros p. destruct (quiet_counts p os Q) as [-> ->]. destruct (H p) as [-> H2]. split; lia.
+Qed.
+
+Lemma upd_acct p k f (l : list task) t : nth_error l k = Some t ->
+  crun p (upd_nth k f l) + b2n (prun p t) = crun p l + b2n (prun p (f t)) /\
+  cfresh p (upd_nth k f l) + b2n (pfresh p t) = cfresh p l + b2n (pfresh p (f t)).
+Proof. intros E. split; apply countb_upd; auto. Qed.
+
+Lemma feed_params_eof i : feed_params (FMsgEOF i) = feed_params (FMsg i).
+Proof. reflexivity. Qed.
+
+Lemma qparams_app a b : qparams (a ++ b) = qparams a ++ qparams b.
+Proof. apply flat_map_app. Qed.
+Lemma chin_params_app a b : chin_params (a ++ b) = chin_params a ++ chin_params b.
+Proof. apply flat_map_app. Qed.
+
+Ltac blia := cbn; unfold cfresh, crun, qparams, chin_params in *; lia.
+Ltac st_counts St :=
+  unfold prun, pfresh, st_running; cbn [t_st t_params set]; rewrite ?St; cbn [rank Nat.ltb Nat.leb].
+
+Lemma raw_acct s l s1 os : inv s -> step_raw s l = Some (s1, os) -> acct s l os s1.
+Proof.
+  intros I H. destruct (frame_label l) eqn:Fl.
+  { destruct (frame_view _ _ _ _ Fl H) as (T & Iq & R & C & Q).
+    apply acct_quiet; auto; [destruct l; cbn in Fl; try discriminate; exact Logic.I|].
+    intros p. rewrite T. split; auto. rewrite !budget_eq, T, Iq, R, C, chin_params_app, count_bytes_app.
+    destruct l; cbn in Fl; try discriminate; cbn; try lia. rewrite app_nil_r. lia. }
+  destruct l; try discriminate Fl; unfold step_raw in H.
+  - (* LStart *)
+    destruct (negb (running s) && (wg s =? 0)); [|discriminate]. injection H as <- <-.
+    apply acct_quiet; [exact Logic.I|constructor|]. intros p. split; auto. rewrite !budget_eq. blia.
+  - (* LGate *)
+    destruct (find_idx _ 0 (tasks s)) as [k|] eqn:F; [|discriminate].
+    destruct (nth_error (tasks s) k) as [t|] eqn:E; [|discriminate]. injection H as <- <-.
+    apply find_idx_some in F as (x & Ex & Px & _). rewrite Nat.sub_0_r, E in Ex. injection Ex as <-.
+    apply andb_true_iff in Px as [Pp Px]. apply beq_eq in Pp. destruct (t_st t) eqn:St; try discriminate.
+    split; [exists (t_cancelled t); reflexivity|]. intros p.
+    destruct (upd_acct p k (fun t0 => t0 <| t_st := TAtHandled o |>) _ _ E) as [C1 C2].
+    rewrite budget_eq, (budget_eq p s). unfold set_task. cbn [tasks inq rd ch_in set].
+    revert C1 C2. st_counts St. unfold cs, cg. cbn. rewrite Pp.
+    destruct (beq p params); blia.
+  - (* LRelRead *)
+    destruct (rd s) as [| |f|] eqn:Rd; try discriminate. injection H as H.
+    destruct f as [i|i|c].
+    3:{ cbn in H. destruct (stop_locked c s) as [s0 os0] eqn:St. injection H as <- <-.
+        destruct (stop_locked_view_all _ _ _ _ St) as (V & Rs & Cs & Alt).
+        apply acct_quiet; [exact Logic.I| |].
+        - destruct Alt as [[_ ->]|[-> _]]; repeat constructor.
+        - intros p. destruct (V p) as [T1 T2]. cbn [tasks]. split; auto.
+          rewrite !budget_eq. cbn [tasks inq rd ch_in set hold_params]. rewrite Cs, Rd.
+          destruct Alt as [[-> _]|[_ ->]]; [blia|].
+          pose proof (subl_count p _ _ (stop_queue_params (inq s))). blia. }
+    all: destruct (running s) eqn:Rn;
+      [ | cbn in H; rewrite Rn in H; cbn in H; injection H as <- <-;
+          apply acct_quiet; [exact Logic.I|constructor|]; intros p; split; auto;
+          rewrite !budget_eq; cbn [tasks inq rd ch_in set hold_params]; rewrite Rd; blia ].
+    all: match type of H with read_cs ?f _ = _ =>
+           assert (Hf : f = FMsg i \/ f = FMsgEOF i) by auto;
+           destruct (read_cs_msg _ _ _ _ _ Hf Rn H) as (C0 & R1 & _);
+           pose proof (read_cs_inq _ _ _ _ _ Hf Rn H) as Iq;
+           destruct (read_cs_view _ _ _ _ _ Hf Rn H) as (Ci & Q) end.
+    all: unfold core0 in C0; injection C0 as T _ _ _ _ _ _ _ _.
+    all: apply acct_quiet; [exact Logic.I|exact Q|]; intros p; rewrite T; split; auto.
+    all: rewrite !budget_eq, T, Iq, R1, Ci, Rd, qparams_app, count_bytes_app; cbn [hold_params label_params].
+    all: rewrite ?feed_params_eof; pose proof (acc_msg_params p s i); cbn [count_bytes]; lia.
+  - (* LRelNext *)
+    destruct (dp s); try discriminate. injection H as <- <-.
+    apply acct_quiet; [exact Logic.I|constructor|]. intros p.
+    destruct (dequeue_counts p s) as (D1 & D2 & _). split; auto. blia.
+  - (* LRelBarrier *)
+    destruct (dp s); try discriminate. injection H as <- <-.
+    apply acct_quiet; [exact Logic.I|constructor|]. intros p. split; auto. rewrite !budget_eq. blia.
+  - (* LRelAcquire *)
+    destruct (nth_error (tasks s) k) as [t|] eqn:E; [|discriminate].
+    destruct (t_st t) eqn:St; try discriminate.
+    destruct (negb (unit_running s t)); [discriminate|].
+    assert (X : forall x os0 s0, tasks s0 = upd_nth k (fun t => t <| t_st := x |>) (tasks s) -> pend_same s s0 ->
+              gates os0 = [] ->
+              (forall p, cs p os0 = b2n (beq p (t_params t) && match x with TRunning => true | _ => false end)) ->
+              acct s (LRelAcquire k) os0 s0).
+    { intros x os0 s0 T0 (I0 & R0 & C0) G0 S0. split; [exact G0|]. intros p.
+      destruct (upd_acct p k (fun t0 => t0 <| t_st := x |>) _ _ E) as [C1 C2].
+      rewrite budget_eq, (budget_eq p s), T0, I0, R0, C0, (S0 p). unfold cg. rewrite G0.
+      revert C1 C2. st_counts St. destruct (beq p (t_params t)); destruct x; blia. }
+    destruct (t_cancelled t); [injection H as <- <-; eapply X; try reflexivity; [repeat split|]; intros p;
+                                 rewrite andb_false_r; reflexivity|].
+    destruct (sem_free s); [injection H as <- <-; eapply X; try reflexivity; [repeat split|]; intros p;
+                              rewrite andb_false_r; reflexivity|].
+    destruct (sem_wait s); [|injection H as <- <-; eapply X; try reflexivity; [repeat split|]; intros p;
+                              rewrite andb_false_r; reflexivity].
+    destruct (t_builtin t) eqn:B; injection H as <- <-; eapply X; try reflexivity; try (repeat split; fail); intros p.
+    + rewrite andb_false_r; reflexivity.
+    + unfold cs. cbn. rewrite andb_true_r. destruct (beq p (t_params t)); reflexivity.
+  - (* LRelHandled *)
+    destruct (nth_error (tasks s) k) as [t|] eqn:E; [|discriminate].
+    destruct (t_st t) eqn:St; try discriminate.
+    set (s0 := set_task k (fun t => t <| t_st := TDone (body_of_outcome t o) |>) s <| sem_free ::= S |>) in *.
+    assert (W0 : wait_ok s0).
+    { unfold wait_ok, s0; cbn. apply wait_ok_upd; [apply I|]. eapply wait_not_in; eauto; [apply I|congruence]. }
+    pose proof (grant_counts (S (length (sem_wait s0))) s0 W0) as G.
+    destruct (grant (S (length (sem_wait s0))) s0 []) as [s2 os2]. cbn [fst snd] in G.
+    destruct G as (_ & (I2 & R2 & C2) & G2 & A2).
+    assert (Y : forall s3 os3, tasks s3 = tasks s2 -> pend_same s2 s3 -> (os3 = os2 \/ exists cr, os3 = os2 ++ [OCrash cr]) ->
+              acct s (LRelHandled k) os3 s3).
+    { intros s3 os3 T3 (I3 & R3 & C3) Ho.
+      assert (Go : gates os3 = gates os2 /\ forall p, cs p os3 = cs p os2).
+      { destruct Ho as [->|(cr & ->)]; [auto|]. rewrite gates_app. cbn. rewrite app_nil_r. split; auto.
+        intros p. rewrite cs_app. blia. }
+      destruct Go as [Go1 Go2]. split; [cbn; congruence|]. intros p. rewrite Go2. unfold cg. rewrite Go1, G2.
+      destruct (A2 p) as [A3 A4].
+      destruct (upd_acct p k (fun t0 => t0 <| t_st := TDone (body_of_outcome t0 o) |>) _ _ E) as [C4 C5].
+      rewrite budget_eq, (budget_eq p s), T3, I3, R3, C3, I2, R2, C2.
+      change (tasks s0) with (upd_nth k (fun t0 => t0 <| t_st := TDone (body_of_outcome t0 o) |>) (tasks s)) in A3, A4.
+      change (inq s0) with (inq s). change (rd s0) with (rd s). change (ch_in s0) with (ch_in s).
+      revert C4 C5. st_counts St. rewrite !andb_false_r. blia. }
+    destruct (is_note t); [destruct (nbar s2)|]; injection H as <- <-; apply Y; auto; try (repeat split; fail).
+    right. eexists; reflexivity.
+  - (* LRelDeliver *)
+    destruct (nth_error (units s) u) as [un|] eqn:E; [|discriminate].
+    destruct (u_st un) eqn:Su; try discriminate.
+    assert (X : forall p, squiet p s (release_ids (unit_tasks s u) s)) by (intros p; apply release_ids_squiet).
+    destruct (u_chok un); cbn in H; injection H as <- <-; (apply acct_quiet; [exact Logic.I|repeat constructor|]);
+      intros p; destruct (squiet_budget _ _ _ (X p)) as [B1 B2]; split; auto;
+      rewrite budget_eq in *; cbn [tasks inq rd ch_in set set_unit]; blia.
+  - (* LRelStop *)
+    destruct (find_op n (ops s)) as [[n0|n0 id|n0 w m p]|]; try discriminate.
+    destruct (stop_locked SCStop (s <| ops ::= del_op n |>)) as [s0 os0] eqn:St. injection H as <- <-.
+    destruct (stop_locked_view_all _ _ _ _ St) as (V & Rs & Cs & Alt). cbn [tasks rd ch_in inq set] in *.
+    apply acct_quiet; [exact Logic.I| |].
+    + apply Forall_app. split; [|repeat constructor]. destruct Alt as [[_ ->]|[-> _]]; repeat constructor.
+    + intros p. destruct (V p) as [T1 T2]. split; auto.
+      rewrite !budget_eq. rewrite Cs, Rs.
+      destruct Alt as [[-> _]|[_ ->]]; [blia|].
+      pose proof (subl_count p _ _ (stop_queue_params (inq s))). blia.
+  - (* LRelCancel *)
+    destruct (find_op n (ops s)) as [[n0|n0 id|n0 w m p]|]; try discriminate.
+    injection H as <- <-. apply acct_quiet; [exact Logic.I|repeat constructor|]. intros p.
+    destruct (assoc id _) as [owner|].
+    + pose proof (cancel_task_squiet p owner (s <| ops ::= del_op n |>)) as X.
+      destruct (squiet_budget _ _ _ X) as [B1 B2]. rewrite !budget_eq in *. cbn [tasks inq rd ch_in set] in *.
+      split; auto. blia.
+    + split; auto. rewrite !budget_eq. blia.
+Qed.
